@@ -156,12 +156,13 @@ def tb_site(exc):
     for fr in traceback.extract_tb(exc.__traceback__):
         if os.sep + 'parso' + os.sep in fr.filename and os.sep + 'vmon' + os.sep not in fr.filename:
             site = fr
+    in_parso = site is not None
     if site is None:
         frs = traceback.extract_tb(exc.__traceback__)
         site = frs[-1] if frs else None
     if site is None:
-        return {'func': '?', 'line': '?', 'file': '?'}
-    return {'func': site.name, 'line': (site.line or '').strip(), 'file': os.path.basename(site.filename)}
+        return {'func': '?', 'line': '?', 'file': '?', 'in_parso': False}
+    return {'func': site.name, 'line': (site.line or '').strip(), 'file': os.path.basename(site.filename), 'in_parso': in_parso}
 
 
 def exc_info(exc):
